@@ -32,4 +32,7 @@ def run(chk):
     batcher.check_consumer(chk, "C01")
     from . import executor_contracts
     executor_contracts.item_in_child_context(chk, "C01")   # a resumed branch gets a FRESH context: the same position keeps the same id
+    from . import misc_contracts, c15
+    misc_contracts.context_construction(chk, "C01")        # ... create_child_context really makes a new context (with its own counter at 0) on every call
+    c15.containers(chk, only=("batch_result",), prefix="C01")   # the recorded outcome of a completed map / parallel is delivered item by item as recorded (falsy results included)
     executor_contracts.replay_items(chk, "C01")
